@@ -226,6 +226,16 @@ func opConnMgr() error {
 					stats["disconnects"]++
 					mu.Unlock()
 					cm.Disconnect(req.ID())
+					if rng.Intn(3) == 0 {
+						// the server's done handler may report the same connection once more (outboundPeerConnected's
+						// error path and then handleDonePeerMsg): a Disconnect for an id that is no longer connected
+						time.Sleep(time.Duration(rng.Intn(3)) * time.Millisecond)
+						mu.Lock()
+						emit(map[string]any{"ev": "disconnect-again", "id": id})
+						stats["repeated-disconnects"]++
+						mu.Unlock()
+						cm.Disconnect(req.ID())
+					}
 				}
 			}
 		}
